@@ -183,7 +183,7 @@ func ifNud(p *parser, t *token) *token {
 	for {
 		first := p.Expression(0, "{")
 		if p.Token.Symbol == ";" {
-			t.Append(first)
+			t.Append(asStatement(first))
 			p.Advance(";")
 			t.Append(p.Expression(0, "{"))
 		} else {
@@ -245,11 +245,11 @@ func forNud(p *parser, t *token) *token {
 		return t
 	}
 
-	t.Append(first)
+	t.Append(asStatement(first))
 	p.Advance(";")
 	t.Append(p.Expression(0, "{"))
 	p.Advance(";")
-	t.Append(p.Expression(0, "{"))
+	t.Append(asStatement(p.Expression(0, "{")))
 	t.Append(p.Block("block", "{", "}"))
 	return t
 }
@@ -613,7 +613,7 @@ func switchNud(p *parser, t *token) *token {
 	for {
 		if p.Token.Symbol == "case" {
 			c := p.Advance("case")
-			c.Append(p.Statement())
+			c.Append(p.Expression(0))
 			p.Advance(":")
 			c.Append(getCase(p))
 			cases.Append(c)
